@@ -239,7 +239,10 @@ def C02_race(strat: int, b0: bool, b1: bool, b2: bool, b3: bool, pv: int, mi: in
   if [t for t in out.trace if t[0] == 'R'] and [t for t in out.trace if t[0] == 'W']:
     cover('interleaved')
   if out.errors:
-    return True                      # exceptions inside store/drain are C17's clause (C17_race)
+    # an exception inside store/drain is C17's clause (C17_race); the reported size must still be exact
+    if out.cache.size != L.held(out.cache):
+      raise AssertionError('after %r the reported size is %r but %r datapoints are held' % (out.errors[0][1], out.cache.size, L.held(out.cache)))
+    return True
   if out.size_bad is not None:
     raise AssertionError('lock free but size %r != %r datapoints held (after a step of %s)' % (out.size_bad[1], out.size_bad[2], out.size_bad[0]))
   problem = R.conservation_problem(out, stores)
@@ -257,7 +260,7 @@ def replay_race(strat, b0, b1, b2, b3, pv, mi, ti, v, p1, n, p2, nd):
   if out.replay_problems:
     raise RuntimeError('schedule could not be enforced on real threads: %r' % (out.replay_problems,))
   if out.errors:
-    return True
+    return out.cache.size == L.held(out.cache)
   return R.conservation_problem(out, stores) is None
 
 
